@@ -142,16 +142,17 @@ func runOne(t *testing.T, wl *Workload, cfg string, seed uint64, replay map[stri
 	dir := filepath.Join(scratchRoot, fmt.Sprintf("vr-%d-%d", os.Getpid(), runCounter))
 	os.MkdirAll(dir, 0o755)
 	defer os.RemoveAll(dir)
+	finished := false
 	func() {
 		defer func() {
 			simrt.S = nil
 			if r := recover(); r != nil {
 				msg := fmt.Sprint(r)
-				if strings.Contains(msg, "blocked goroutines remain") || strings.Contains(msg, "all goroutines in bubble are blocked") {
+				if finished && (strings.Contains(msg, "blocked goroutines remain") || strings.Contains(msg, "all goroutines in bubble are blocked")) {
 					return // abandoned goroutines at the end of a bubble (endless tickers, blocked cron senders)
 				}
-				buf := make([]byte, 8192)
-				n := runtime.Stack(buf, false)
+				buf := make([]byte, 1<<16)
+				n := runtime.Stack(buf, os.Getenv("VERIF_ALLSTACKS") != "")
 				out.Infra = "panic outside tasks: " + msg + "\n" + string(buf[:n])
 			}
 		}()
@@ -170,6 +171,7 @@ func runOne(t *testing.T, wl *Workload, cfg string, seed uint64, replay map[stri
 			e := &Env{T: t, S: s, WL: tp.St("workload"), FL: tp.St("faults"), Seed: seed, Cfg: parseCfg(cfg), Out: &out, Dir: dir, Detail: detail, T0: time.Now()}
 			simrt.S = s
 			wl.Run(e)
+			finished = true
 			out.Tape = tp.Recorded()
 			out.Digest = s.Digest()
 			out.SchedHash = s.SchedHash()
@@ -425,6 +427,7 @@ type partSummary struct {
 	Yields    int64          `json:"yields"`
 	Preempts  int64          `json:"preempts"`
 	FocusPre  int64          `json:"focus_preempts"`
+	FocusY    int64          `json:"focus_yields"`
 	SimNs     int64          `json:"sim_ns"`
 	WallS     float64        `json:"wall_s"`
 	Counters  map[string]int `json:"counters"`
@@ -532,6 +535,7 @@ func TestWorker(t *testing.T) {
 			ps.Yields += int64(r.Yields)
 			ps.Preempts += int64(r.Preempts)
 			ps.FocusPre += int64(r.FocusPreempts)
+			ps.FocusY += int64(r.FocusYields)
 			ps.SimNs += r.SimNs
 			if r.Truncated {
 				ps.Truncated++
